@@ -4,6 +4,7 @@
 //! trusted: assume_specification for core::cmp::max / core::cmp::min / Result::unwrap_or (std definitions); trait FeeEstimator is reduced to get_est_sat_per_1000_weight with an unconstrained result (any estimator); trait Logger empty (R3 removes log statements)
 //! assume: compute_package_feerate: the fee estimator never returns more than u32::MAX/5 = 858_993_459 sat/kW (`feerate_estimate * 5` is computed in u32; observation O4 in DESIGN)
 //! trusted: payload structs of PackageSolvingData (RevokedOutput, ... HolderHTLCOutput) are skeletons keeping the fields the code reads; PackageSolvingData::amount() is external_body with an uninterpreted result; BitcoinOutPoint opaque; AggregationCluster is extracted, its derived == is modelled as structural equality
+//! trusted: R6: in merge_package `for (k, v) in merge_from.inputs.drain(..) { self.inputs.push((k, v)); }` becomes `self.inputs.append(&mut merge_from.inputs)` (same effect on both vectors); R5: the `mut` by-value parameter is rebound to a local
 //! trusted: R6: `.iter().find_map(|(_, outp)| V)` and `.iter().filter_map(|(_, outp)| V).max()` in PackageTemplate::signed_locktime / package_locktime become index loops carrying V verbatim
 //! assume: HolderHTLCOutput invariant (preimage is Some ==> cltv_expiry == 0, established by its constructors, checked by a debug_assert in the source); PackageTemplate::signed_locktime is extracted with cfg(debug_assertions) off (its debug-only consistency loop is dropped)
 //! trusted: can_merge_with is extracted with release semantics: the cfg(debug_assertions) consistency loops and the `debug_assert!(false, ..)` on its defensive different-tx-tree branch are dropped (the branch itself, returning false, is kept and verified)
@@ -379,6 +380,36 @@ impl PackageTemplate {
     if !self.inputs[0].1.is_possibly_from_same_tx_tree(&other.inputs[0].1) {
 //@with
     if false {
+//@end
+
+//@extract lightning/src/chain/package.rs :: impl PackageTemplate :: fn merge_package
+//@rw R5
+    &mut self, mut merge_from: PackageTemplate, cur_height: u32, ) -> Result<(), PackageTemplate> {
+//@with
+    &mut self, merge_from_: PackageTemplate, cur_height: u32, ) -> Result<(), PackageTemplate> {
+        let mut merge_from = merge_from_;
+//@rw R6
+    for (k, v) in merge_from.inputs.drain(..) { self.inputs.push((k, v)); }
+//@with
+    self.inputs.append(&mut merge_from.inputs);
+//@ret r
+//@requires
+    cur_height <= 0x7fff_ffff, pkg_wf(*old(self)), pkg_wf(merge_from_),
+//@ensures P C06,C07 an-aggregated-claim-keeps-every-input-and-the-most-urgent-deadline-timer-and-lowest-previous-feerate-of-its-parts
+    r is Ok ==> final(self).inputs@ == old(self).inputs@ + merge_from_.inputs@
+        && final(self).counterparty_spendable_height == (if old(self).counterparty_spendable_height <= merge_from_.counterparty_spendable_height { old(self).counterparty_spendable_height } else { merge_from_.counterparty_spendable_height })
+        && final(self).height_timer == (if old(self).height_timer <= merge_from_.height_timer { old(self).height_timer } else { merge_from_.height_timer })
+        && final(self).feerate_previous == (if old(self).feerate_previous <= merge_from_.feerate_previous { old(self).feerate_previous } else { merge_from_.feerate_previous })
+        && final(self).malleability == old(self).malleability,
+    r is Err ==> *final(self) == *old(self) && r->Err_0 == merge_from_,
+//@mutant merged_claim_keeps_the_later_deadline
+    if self.counterparty_spendable_height > merge_from.counterparty_spendable_height {
+//@with
+    if self.counterparty_spendable_height < merge_from.counterparty_spendable_height {
+//@mutant merged_claim_keeps_the_later_timer
+    cmp::min(self.height_timer, merge_from.height_timer)
+//@with
+    cmp::max(self.height_timer, merge_from.height_timer)
 //@end
 
 //@extract lightning/src/chain/package.rs :: impl PackageTemplate :: fn compute_package_feerate
